@@ -72,6 +72,8 @@ fn ematch_node<L: Language, N: Analysis<L>>(
     nn: &L,
 ) {
     'nodeloop: for n2 in eg.get_group_compatible_weak_variants(&nn) {
+        #[cfg(slotted_egraphs_verif)]
+        crate::verif::work();
         if CHECKS {
             assert_eq!(&nullify_app_ids(n), n);
         }
